@@ -189,6 +189,38 @@ def run(tier):
                     c["raised"], c["exc"] = True, type(e).__name__ + ":" + str(e)[:60]
                 cases.append(c)
                 ctx.case((kind, yc, form, fmt))
+    # SEQUENCES through one writer: zones whose offset is zero for part of the year, winter first and summer first (whatever
+    # a writer remembers about a zone object from one timestamp must not decide how the next one is written)
+    from zoneinfo import ZoneInfo as _ZI
+
+    for zname in ("Europe/London", "Europe/Lisbon", "Africa/Casablanca", "Europe/Amsterdam"):
+        z = _ZI(zname)
+        winter, summer = dt.datetime(2021, 1, 15, 12, 0, 0, 1, tzinfo=z), dt.datetime(2021, 7, 15, 12, 0, 0, 2, tzinfo=z)
+        for order_name, seq in (("winter-first", [winter, summer, winter, summer]), ("summer-first", [summer, winter, summer])):
+            for fmt in ("binary", "json", "sqlite", "avro"):
+                url = {"binary": "o.records", "json": "o.json", "sqlite": "sqlite://o.db", "avro": "o.avro"}[fmt]
+                for f in os.listdir(tmp):
+                    os.remove(os.path.join(tmp, f))
+                full = url.replace("://", "://" + tmp + "/") if "://" in url else os.path.join(tmp, url)
+                recs_ = [D(v, i, _generated=gen.GEN) for i, v in enumerate(seq)]
+                try:
+                    with RecordWriter(full) as w:
+                        for r in recs_:
+                            w.write(r)
+                    back = sorted(RecordReader(full), key=lambda r: int(r.n))
+                    err = None
+                except Exception as e:
+                    back, err = [], type(e).__name__ + ":" + str(e)[:60]
+                for i, r in enumerate(recs_):
+                    st = r.ts
+                    c = {"kind": "roundtrip", "tz": zname, "year": order_name + "#%d" % i, "form": "object", "fmt": fmt, "via": fmt + "-sequence", "in_instant": instant(seq[i]), "stored_instant": instant(st),
+                         "stored_offset": offset_s(st), "stored_aware": True, "out_instant": [0, 0, 0], "out_offset": 0, "out_aware": False, "raised": err is not None or i >= len(back), "exc": err or "none", "digests": ["-"]}
+                    if not c["raised"]:
+                        o = back[i].ts
+                        c["out_aware"] = o.tzinfo is not None and o.utcoffset() is not None
+                        c["out_instant"], c["out_offset"] = instant(o), offset_s(o)
+                    cases.append(c)
+                    ctx.case(("sequence", zname, order_name, i, fmt))
     # display settings: the same records written in sub-processes under different settings
     digests = []
     settings = [{}, {"FLOW_RECORD_TZ": "Europe/Amsterdam"}, {"FLOW_RECORD_TZ": "NONE"}, {"FLOW_RECORD_TZ": "America/New_York", "TZ": "Asia/Tokyo"}, {"TZ": "America/Los_Angeles"}, {"FLOW_RECORD_TZ": "Not/AZone"}]
